@@ -23,7 +23,7 @@ impl WindowExecutor {
             let chunk = chunk?;
             let mut builder = DataChunkBuilder::new(&self.types, chunk.cardinality() + 1);
             for i in 0..chunk.cardinality() {
-                Evaluator::new(&self.exprs).agg_list_append(&mut states, chunk.row(i).values());
+                Evaluator::new(&self.exprs).agg_list_append(&mut states, chunk.row(i).values())?;
                 let results = Evaluator::new(&self.exprs).agg_list_get_result(&states);
                 _ = builder.push_row(results);
             }
